@@ -499,24 +499,21 @@ func c01Queued(r *vlib.Run) {
 			if j < k {
 				ok = bytes.Equal(res.Stdout, joinMsgs(splitM(contents[j], 1024*1024)))
 			} else {
-				// four files, each contiguous, in any order
-				rest := res.Stdout
-				used := map[int]bool{}
-				for len(used) < 4 {
-					hit := -1
+				// four files, each contiguous, in any order (all 24 orders are tried: one file's content may be the
+				// beginning of another's)
+				var try func(rest []byte, used int) bool
+				try = func(rest []byte, used int) bool {
+					if used == 15 {
+						return len(rest) == 0
+					}
 					for q := 0; q < 4; q++ {
-						if !used[q] && bytes.HasPrefix(rest, contents[q]) {
-							hit = q
-							break
+						if used&(1<<q) == 0 && bytes.HasPrefix(rest, contents[q]) && try(rest[len(contents[q]):], used|1<<q) {
+							return true
 						}
 					}
-					if hit < 0 {
-						break
-					}
-					used[hit] = true
-					rest = rest[len(contents[hit]):]
+					return false
 				}
-				ok = len(used) == 4 && len(rest) == 0
+				ok = try(res.Stdout, 0)
 			}
 			if res.Hung || res.Panicked() || res.Exit != 0 || !ok {
 				d := map[string]interface{}{"scenario": "eight sessions at once on a server with MaxConcurrentCats=1", "session": j, "wildcard": j == k,
